@@ -209,19 +209,41 @@ func (obj *Package) Unuse(pkg *Package) {
 				break
 			}
 		}
-		// Rebuild to make sure use tree branches are removed as well.
-		obj.vars = map[string]*VarVal{}
-		obj.funcs = map[string]*FuncInfo{}
-		obj.classes = map[string]Class{}
-		for _, p := range obj.Uses {
+		// Rebuild to make sure use tree branches are removed as well. Only
+		// the inherited entries are dropped, the definitions and imports
+		// of the package itself stay.
+		for name, vv := range obj.vars {
+			if vv.Pkg != obj && vv.Pkg != nil && obj.Imports[name] == nil {
+				delete(obj.vars, name)
+			}
+		}
+		for name, fi := range obj.funcs {
+			if fi.Pkg != obj && obj.Imports[name] == nil {
+				delete(obj.funcs, name)
+			}
+		}
+		for name, c := range obj.classes {
+			if c.Pkg() != obj {
+				delete(obj.classes, name)
+			}
+		}
+		// As with Use(), the most recently used package wins a name clash.
+		for i := len(obj.Uses) - 1; 0 <= i; i-- {
+			p := obj.Uses[i]
 			for name, vv := range p.vars {
-				obj.vars[name] = vv
+				if _, has := obj.vars[name]; !has && vv.Export {
+					obj.vars[name] = vv
+				}
 			}
 			for name, fi := range p.funcs {
-				obj.funcs[name] = fi
+				if _, has := obj.funcs[name]; !has && fi.Export {
+					obj.funcs[name] = fi
+				}
 			}
 			for name, c := range p.classes {
-				obj.classes[name] = c
+				if _, has := obj.classes[name]; !has {
+					obj.classes[name] = c
+				}
 			}
 		}
 	}
@@ -477,6 +499,7 @@ func (obj *Package) Export(name string) {
 			}
 		} else {
 			vv := newUnboundVar(name)
+			vv.Pkg = obj
 			vv.Export = true
 			obj.vars[name] = vv
 		}
